@@ -53,15 +53,25 @@ class DBWorld:
             iolog.LOG.reset(self.dir, bufsize)
             iolog.LOG.recording = True
         self.record = record
-        self.storage = self._mkstorage(kind)
         DB = env.mod('ZODB.DB').DB
-        self.db = DB(self.storage, pool_size=pool_size)
         self.names = names
         self.events = []
         self.vcount = 100
         self.oids = {}
+        if kind in ('DMM', 'DFM'):
+            # the initial objects live in the BASE layer: commit them through
+            # a DB on the base, then layer the demo storage over it
+            FS = env.mod('ZODB.FileStorage.FileStorage').FileStorage
+            MS = env.mod('ZODB.MappingStorage').MappingStorage
+            DS = env.mod('ZODB.DemoStorage').DemoStorage
+            self.base = FS(self.path) if kind == 'DFM' else MS('base')
+            setup_db = DB(self.base, pool_size=pool_size)
+            self.storage = DS(base=self.base, changes=MS('changes'))
+        else:
+            self.storage = self._mkstorage(kind)
+            setup_db = DB(self.storage, pool_size=pool_size)
         tm = transaction.TransactionManager()
-        c = self.db.open(tm)
+        c = setup_db.open(tm)
         root = c.root()
         C = getattr(hclasses, cls)
         for n in names:
@@ -76,6 +86,10 @@ class DBWorld:
         self.setup_tid = root[names[0]]._p_serial
         c.close()
         env.CLOCK.now += 1
+        if kind in ('DMM', 'DFM'):
+            self.db = DB(self.storage, pool_size=pool_size)
+        else:
+            self.db = setup_db
 
     def _mkstorage(self, kind):
         FS = env.mod('ZODB.FileStorage.FileStorage').FileStorage
